@@ -198,6 +198,10 @@ fn main() {
             Ok(()) => println!("setup: asn1! expansion workspace ready"),
             Err(e) => println!("setup: asn1! expansion workspace not ready (the macro part of C20 will report inconclusive): {e}"),
         }
+        match c08fuzz::build() {
+            Ok(p) => println!("setup: coverage-guided generator built ({})", p.display()),
+            Err(e) => println!("setup: coverage-guided generator not built (C08 will note it as inconclusive and run its seeded categories): {e}"),
+        }
         let mut rep = core::Report::default();
         match c20::cli_binary(&mut rep) {
             Some(p) => println!("setup: CLI built ({})", p.display()),
